@@ -3,6 +3,12 @@ contain (plain Python values, written down from the format definitions - no bion
 
 An entry is described by (index i, size class s) with s in {1, 2, 5}: s scales every variable-length field (names,
 sequences, digit counts), i makes entries pairwise different (so loss, duplication and reordering are all visible).
+Two further size classes exist for the formats that allow them (spec.size_classes):
+    0  (ZERO)  the variable-length fields that the format allows to be EMPTY are empty: FASTA / FASTQ records of a
+               zero-length read (name of 1 letter, empty sequence line, empty quality line: '@a\n\n+\n\n', '>a\n\n')
+    9  (WIDE)  delimited formats: text fields as short as in class 1, but every coordinate-like integer column has
+               9 digits, so that one column holds numbers of width 1 and 9 in the same file ('a\t2\t3' next to
+               'b\t234567890\t345678901')
 
     spec = FORMATS[name]
     lines, ref = spec.entry(i, s)       # text lines of the entry (no line ends), tuple of reference field values
@@ -37,14 +43,27 @@ def qual(n, i):
     # the record markers)
     chars = "!#5?I"
     q = "".join(chars[(i + j) % 5] for j in range(n))
-    if i % 4 == 1:
+    if n and i % 4 == 1:
         q = "@" + q[1:]
-    if i % 4 == 2:
+    if n and i % 4 == 2:
         q = "+" + q[1:]
     return q
 
 
 FLOATS = {1: ["1", "2", "3", "4"], 2: ["0.5", "1.5", "2.5", "3.5"], 5: ["10.25", "11.25", "-12.5", "13.75"]}
+
+
+ZERO, WIDE = 0, 9
+
+
+def tw(s):
+    """size of the text fields of an entry of size class s"""
+    return 1 if s == WIDE else s
+
+
+def nsc(s):
+    """digits of a BED score (0..1000 by the format definition; the classic class 5 predates this rule)"""
+    return 3 if s == WIDE else s
 
 
 class Spec:
@@ -53,51 +72,55 @@ class Spec:
         self.header = list(header)
         self.buffer_type = buffer_type      # attribute name in bionumpy.io.* to pass as buffer_type (None: by suffix)
         self.float_fields = set(float_fields)
+        self.size_classes = (1, 2, 5)       # + ZERO / WIDE where the format allows them (set below)
 
 
 def _fasta(width):
     def entry(i, s):
-        name = word(s, i) if s < 5 else word(2, i) + " " + word(2, i, 1)      # s=5: header with a description
+        name = word(max(s, 1), i) if s < 5 else word(2, i) + " " + word(2, i, 1)      # s=5: header with a description
         sq = seq(s, i)
         w = width or max(len(sq), 1)
-        return [">" + name] + [sq[a:a + w] for a in range(0, len(sq), w)], (name, sq)
+        # s=0: a zero-length sequence is one empty sequence line
+        return [">" + name] + ([sq[a:a + w] for a in range(0, len(sq), w)] or [""]), (name, sq)
     return entry
 
 
 def _fastq(i, s):
-    name, sq, q = word(s, i), seq(s, i), qual(s, i)
+    name, sq, q = word(max(s, 1), i), seq(s, i), qual(s, i)          # s=0: zero-length read
     return ["@" + name, sq, "+", q], (name, sq, [ord(c) - 33 for c in q])
 
 
 def _bed3(i, s):
-    c, a, b = word(s, i), num(s, i), num(s, i, 1)
+    c, a, b = word(tw(s), i), num(s, i), num(s, i, 1)
     return ["\t".join((c, a, b))], (c, int(a), int(b))
 
 
 def _bed6(i, s):
-    c, a, b, n, sc, st = word(s, i), num(s, i), num(s, i, 1), word(s, i, 2), num(s, i, 2), "+-."[(i + s) % 3]
+    c, a, b, n, sc, st = word(tw(s), i), num(s, i), num(s, i, 1), word(tw(s), i, 2), num(nsc(s), i, 2), "+-."[(i + s) % 3]
     return ["\t".join((c, a, b, n, sc, st))], (c, int(a), int(b), n, int(sc), st)
 
 
 def _bdg(i, s):
-    c, a, b, v = word(s, i), num(s, i), num(s, i, 1), FLOATS[s][i % 4]
+    c, a, b, v = word(tw(s), i), num(s, i), num(s, i, 1), FLOATS[tw(s)][i % 4]
     return ["\t".join((c, a, b, v))], (c, int(a), int(b), float(v))
 
 
 def _narrowpeak(i, s):
-    c, a, b = word(s, i), num(s, i), num(s, i, 1)
-    n = "." if s == 1 else word(s, i, 2)
-    sc, st = num(s, i, 2), "+-."[(i + s) % 3]
-    sig, p, q, summit = FLOATS[s][i % 4], FLOATS[s][(i + 1) % 4], "-1" if s == 1 else FLOATS[s][(i + 2) % 4], num(s, i, 3)
+    c, a, b = word(tw(s), i), num(s, i), num(s, i, 1)
+    n = "." if tw(s) == 1 else word(s, i, 2)
+    sc, st = num(nsc(s), i, 2), "+-."[(i + s) % 3]
+    t = tw(s)
+    sig, p, q, summit = FLOATS[t][i % 4], FLOATS[t][(i + 1) % 4], "-1" if t == 1 else FLOATS[t][(i + 2) % 4], num(s, i, 3)
     return (["\t".join((c, a, b, n, sc, st, sig, p, q, summit))],
             (c, int(a), int(b), n, int(sc), st, float(sig), float(p), float(q), int(summit)))
 
 
 def _vcf(extra_cols):
     def entry(i, s):
-        c, pos = word(s, i), num(s, i)
+        c, pos = word(tw(s), i), num(s, i)
         if int(pos) == 0:
             pos = "1"
+        s = tw(s)                                 # WIDE: only POS is wide
         vid = "." if s == 1 else "rs" + num(s - 1, i, 1)
         ref = seq(s, i)
         alt = seq(1, i, 1) if s < 5 else seq(2, i, 1) + "," + seq(2, i, 2)
@@ -115,10 +138,12 @@ VCF_HEADER = ["##fileformat=VCFv4.2", "##source=c01", "#CHROM\tPOS\tID\tREF\tALT
 
 
 def _sam(i, s):
-    name, flag, c, pos, mapq = word(s, i), ["0", "16", "99", "147"][i % 4], word(s, i, 1), num(s, i), num(min(s, 2), i, 1)
-    sq = seq(s, i)
+    t = tw(s)                                     # WIDE: POS, PNEXT and TLEN are wide
+    name, flag, c, pos, mapq = word(t, i), ["0", "16", "99", "147"][i % 4], word(t, i, 1), num(s, i), num(min(t, 2), i, 1)
+    sq = seq(t, i)
     cigar = "%dM" % len(sq)
     nxt, npos, tlen = "*=" [i % 2], num(s, i, 2), num(s, i, 3)
+    s = t
     q = "".join("5?IAB"[(i + j) % 5] for j in range(len(sq)))
     extra = {1: [], 2: ["NM:i:%d" % i], 5: ["NM:i:%d" % i, "MD:Z:%d" % len(sq)]}[s]
     cols = [name, flag, c, pos, mapq, cigar, nxt, npos, tlen, sq, q] + extra
@@ -129,7 +154,10 @@ SAM_HEADER = ["@HD\tVN:1.0\tSO:unsorted", "@SQ\tSN:a\tLN:99999"]
 
 
 def _gtf(i, s):
-    c, src, ft, a, b = word(s, i), word(s, i, 1), ["gene", "transcript", "exon", "CDS"][i % 4], num(s, i), num(s, i, 1)
+    c, src, ft, a, b = word(tw(s), i), word(tw(s), i, 1), ["gene", "transcript", "exon", "CDS"][i % 4], num(s, i), num(s, i, 1)
+    if s == WIDE:                                 # 10 digits (< 2**31): the coordinates stand behind three text columns
+        a, b = "1" + a, "1" + b
+    s = tw(s)
     sc, st, ph = "." if s < 5 else "0.5", "+-."[(i + s) % 3], ".012"[i % 4]
     att = {1: 'gene_id "g%d";' % i, 2: 'gene_id "g%d"; transcript_id "t%d";' % (i, i),
            5: 'gene_id "g%d"; transcript_id "t%d"; exon_number "%d";' % (i, i, i + 1)}[s]
@@ -162,6 +190,10 @@ for _s in [
     Spec("gtf", ".gtf", ["chromosome", "source", "feature_type", "start", "stop", "score", "strand", "phase", "atributes"], _gtf),
 ]:
     FORMATS[_s.name] = _s
+    if _s.suffix in (".fa", ".fasta", ".fq"):
+        _s.size_classes = (ZERO, 1, 2, 5)
+    else:
+        _s.size_classes = (1, 2, 5, WIDE)
 
 
 def build(fmt, sizes, final_newline=True, crlf=False):
